@@ -16,6 +16,8 @@ type target struct {
 	Uses    []string // section variables the definition mentions, passed explicitly by callers
 	Nilable []string // slice parameters that the function compares with nil: modelled as Option
 	File    string   // generated file (Ucan/Gen/<File>.lean)
+	Shell   bool     // every method the function calls on its receiver is a parameter (shellMethods): the definition
+	// depends on the body of this one function only. A shell target is never a callee; list it after the full one.
 }
 
 // genFile is one generated Lean file; the split keeps a change to one Go function from breaking the
@@ -33,10 +35,12 @@ var genFiles = []genFile{
 	{Name: "Selector"},
 	{Name: "Secretbox"},
 	{Name: "ChainTypes", Structs: true},
-	{Name: "ChainTime", Imports: []string{"ChainTypes"}},
+	{Name: "ChainTime", Imports: []string{"ChainTypes"}, Prelude: "variable (now : Int)\n"},
 	{Name: "ChainProofs", Imports: []string{"ChainTypes", "Command"}},
 	{Name: "PolicyMatch", Prelude: policyMatchPrelude},
-	{Name: "ChainAllowed", Imports: []string{"ChainTypes", "ChainTime", "ChainProofs"}, Prelude: chainAllowedPrelude},
+	{Name: "ChainShell", Imports: []string{"ChainTypes"}, Prelude: chainShellPrelude},
+	{Name: "ChainArgs", Imports: []string{"ChainTypes", "PolicyMatch"}, Prelude: chainArgsPrelude},
+	{Name: "ChainAllowed", Imports: []string{"ChainTypes", "ChainTime", "ChainProofs", "ChainArgs"}, Prelude: chainAllowedPrelude},
 }
 
 // The list is ordered: a callee comes before its callers.
@@ -55,9 +59,13 @@ var targets = []target{
 	{Dir: "token/invocation", Recv: "Token", Name: "IsValidAt", Lean: "Inv_IsValidAt", File: "ChainTime"},
 	{Dir: "token/invocation", Recv: "Token", Name: "verifyProofs", Lean: "Inv_verifyProofs", File: "ChainProofs"},
 	{Dir: "token/invocation", Recv: "Token", Name: "verifyTimeBoundAt", Lean: "Inv_verifyTimeBoundAt", File: "ChainTime"},
-	{Dir: "token/invocation", Recv: "Token", Name: "verifyTimeBound", Lean: "Inv_verifyTimeBound", File: "ChainAllowed", Uses: []string{"now"}},
+	{Dir: "token/invocation", Recv: "Token", Name: "verifyArgs", Lean: "Inv_verifyArgs", File: "ChainArgs",
+		Uses: []string{"ext_matchStatement", "ext_toIPLD"}},
+	{Dir: "token/invocation", Recv: "Token", Name: "verifyTimeBound", Lean: "Inv_verifyTimeBound", File: "ChainTime", Uses: []string{"now"}},
 	{Dir: "token/invocation", Recv: "Token", Name: "executionAllowed", Lean: "Inv_executionAllowed", File: "ChainAllowed",
-		Uses: []string{"now", "ext_loadProofs", "ext_verifyArgs"}},
+		Uses: []string{"now", "ext_loadProofs", "ext_matchStatement", "ext_toIPLD"}},
+	{Dir: "token/invocation", Recv: "Token", Name: "executionAllowed", Lean: "Inv_executionAllowed_shell", File: "ChainShell", Shell: true,
+		Uses: []string{"ext_loadProofs", "ext_verifyProofs", "ext_verifyTimeBound", "ext_verifyArgs"}},
 }
 
 func findTarget(dir, recv, name string) *target {
@@ -119,8 +127,8 @@ type structDef struct {
 }
 
 var structTable = map[string]*structDef{
-	"delegation.Token": {dir: "token/delegation", name: "Token", lean: "DlgTok", leanType: "(DlgTok D)", params: "(D : Type)",
-		want: []string{"issuer", "audience", "subject", "command", "notBefore", "expiration"}},
+	"delegation.Token": {dir: "token/delegation", name: "Token", lean: "DlgTok", leanType: "(DlgTok D S)", params: "(D S : Type)",
+		want: []string{"issuer", "audience", "subject", "command", "policy", "notBefore", "expiration"}},
 	"invocation.Token": {dir: "token/invocation", name: "Token", lean: "InvTok", leanType: "(InvTok D C)", params: "(D C : Type)",
 		want: []string{"issuer", "subject", "audience", "command", "proof", "expiration"}},
 }
@@ -194,8 +202,16 @@ var methodCalls = map[string]libCall{
 // (section variables declared in the file's prelude), so that the theorems about it hold for every behaviour of
 // these functions. loadProofs talks to the caller's Loader; verifyArgs hands the chain's policies to Policy.Match.
 var externMethods = map[string]libCall{
-	"invocation.Token.loadProofs": {"(ext_loadProofs $r $1)", ty{"(List (DlgTok D))", "[]delegation.Token"}, []string{"ext_loadProofs"}},
-	"invocation.Token.verifyArgs": {"(ext_verifyArgs $r $1 $2)", ty{"Unit", "unit"}, []string{"ext_verifyArgs"}},
+	"invocation.Token.loadProofs": {"(ext_loadProofs $r $1)", ty{"(List (DlgTok D S))", "[]delegation.Token"}, []string{"ext_loadProofs"}},
+	"*args.Args.ToIPLD":           {"(ext_toIPLD $r)", ty{"N", "datamodel.Node"}, []string{"ext_toIPLD"}},
+}
+
+// shellMethods: the parameters a shell target takes for the methods it calls.
+var shellMethods = map[string]libCall{
+	"invocation.Token.loadProofs":      {"(ext_loadProofs $r $1)", ty{"(List (DlgTok D S))", "[]delegation.Token"}, []string{"ext_loadProofs"}},
+	"invocation.Token.verifyProofs":    {"(ext_verifyProofs $r $1)", ty{"Unit", "unit"}, []string{"ext_verifyProofs"}},
+	"invocation.Token.verifyTimeBound": {"(ext_verifyTimeBound $r $1)", ty{"Unit", "unit"}, []string{"ext_verifyTimeBound"}},
+	"invocation.Token.verifyArgs":      {"(ext_verifyArgs $r $1 $2)", ty{"Unit", "unit"}, []string{"ext_verifyArgs"}},
 }
 
 // externFuncs: functions (not methods) of the library that are parameters of the generated code, keyed by "<dir>.<name>".
@@ -206,23 +222,35 @@ var externFuncs = map[string]libCall{
 
 // useTypes: Lean types of the parameters (section variables) that targets may mention
 var useTypes = map[string]string{
-	"lower":              "Bytes → Bytes",
-	"now":                "Int",
-	"ext_loadProofs":     "InvTok D C → L → GoM (List (DlgTok D))",
-	"ext_verifyArgs":     "InvTok D C → List (DlgTok D) → A → GoM Unit",
-	"ext_matchStatement": "Option S → N → (Int × (Option S))",
+	"lower":               "Bytes → Bytes",
+	"now":                 "Int",
+	"ext_loadProofs":      "InvTok D C → L → GoM (List (DlgTok D S))",
+	"ext_toIPLD":          "A → GoM N",
+	"ext_verifyProofs":    "InvTok D C → List (DlgTok D S) → GoM Unit",
+	"ext_verifyTimeBound": "InvTok D C → List (DlgTok D S) → GoM Unit",
+	"ext_verifyArgs":      "InvTok D C → List (DlgTok D S) → A → GoM Unit",
+	"ext_matchStatement":  "Option S → N → (Int × (Option S))",
 }
 
 // pairTypes: component types of the pair types externs return
 var pairTypes = map[string][2]ty{
-	"(Int × (Option S))": {intTy, ty{"(Option S)", "policy.Statement"}},
+	"(Int × (Option S))":  {intTy, ty{"(Option S)", "policy.Statement"}},
+	"(Bool × (Option S))": {boolTy, ty{"(Option S)", "policy.Statement"}},
 }
 
-const policyMatchPrelude = `variable {S N : Type} (ext_matchStatement : Option S → N → (Int × (Option S)))
+const policyMatchPrelude = `variable {N : Type} (ext_matchStatement : Option S → N → (Int × (Option S)))
 `
 
-const chainAllowedPrelude = `variable {L A : Type} (now : Int) (ext_loadProofs : InvTok D C → L → GoM (List (DlgTok D)))
-  (ext_verifyArgs : InvTok D C → List (DlgTok D) → A → GoM Unit)
+const chainArgsPrelude = `variable {N A : Type} (ext_matchStatement : Option S → N → (Int × (Option S))) (ext_toIPLD : A → GoM N)
+`
+
+const chainShellPrelude = `variable {L A : Type} (ext_loadProofs : InvTok D C → L → GoM (List (DlgTok D S)))
+  (ext_verifyProofs : InvTok D C → List (DlgTok D S) → GoM Unit) (ext_verifyTimeBound : InvTok D C → List (DlgTok D S) → GoM Unit)
+  (ext_verifyArgs : InvTok D C → List (DlgTok D S) → A → GoM Unit)
+`
+
+const chainAllowedPrelude = `variable {L N A : Type} (now : Int) (ext_loadProofs : InvTok D C → L → GoM (List (DlgTok D S)))
+  (ext_matchStatement : Option S → N → (Int × (Option S))) (ext_toIPLD : A → GoM N)
 `
 
 type constDef struct {
@@ -237,5 +265,5 @@ var constTable = map[string]constDef{
 	"math.MaxInt": {"(9223372036854775807 : Int)", intTy},
 }
 
-const prelude = `variable (lower : Bytes → Bytes) {D C : Type} [DecidableEq D]
+const prelude = `variable (lower : Bytes → Bytes) {D C S : Type} [DecidableEq D]
 `
